@@ -267,6 +267,19 @@ fn __verif_n_class_gen_signatures() {
             }
         }
     }
+    // the smallest contracts: no entry point at all (a storage-only contract: an empty program), and
+    // a program with functions none of which is an entry point - both are valid and must compile
+    for (what, text) in [("a contract without entry points and without code", String::new()), ("a contract with one function that is not an entry point", contract_sierra(&["GasBuiltin", "System"], Use::None))] {
+        cases += 1;
+        let Some(program) = (if text.is_empty() { Some(Program { type_declarations: vec![], libfunc_declarations: vec![], statements: vec![], funcs: vec![] }) } else { parse_canonical(&text) }) else { continue };
+        let none = ContractEntryPoints { external: vec![], l1_handler: vec![], constructor: vec![] };
+        match judge(&program, none) {
+            Outcome::Panic(m) => { fails.entry(("C14", m.chars().take(60).collect())).or_insert((what.to_string(), format!("from_contract_class panicked: {m}"))); }
+            Outcome::Defect(p, w) => { fails.entry((p, w.chars().take(50).collect())).or_insert((what.to_string(), w)); }
+            Outcome::Accepted => accepted += 1,
+            Outcome::Rejected(e) => { fails.entry(("C19", "no entry points".into())).or_insert((what.to_string(), format!("{what} is a valid class but was rejected: {e}"))); }
+        }
+    }
     let bound = format!("{} signatures (all sequences over 11 builtin-like types up to length {}, all 512 protocol-shaped ones and their one-element perturbations) x unpaid use of none/pedersen/bitwise/poseidon; {accepted} accepted, {rejected} rejected",
         sigs.len(), if std::env::var("VERIF_TIER").map(|t| t == "thorough").unwrap_or(false) { 4 } else { 3 });
     for prop in ["C14", "C19", "C04"] {
